@@ -29,14 +29,22 @@ pub fn all() -> Vec<PropDef> {
             id: "C07",
             rule: "registry models (wild + well-formed) with a trailer, a single-point mutation and an independent second registry; oracle = decode(encode(r)) == r, exact consumption, determinism, pairwise and run-wide injectivity; non-trivial = at least one type and a differing partner, distinct by hash of the encoding",
             assumptions: &["model -> library conversion through public constructors is injective"],
-            subs: crate::p_reg::c07_subs,
+            subs: || {
+                let mut v = crate::p_reg::c07_subs();
+                v.extend(crate::fuzz_entry::fuzz_subs("C07"));
+                v
+            },
             extra: None,
         },
         PropDef {
             id: "C08",
             rule: "registry models with arbitrary Unicode; oracle = independent JSON writer built from the documented shape + read-back (from_value, from_str, pretty) + agreement with the SCALE round trip; non-trivial = a type with at least one present and one omitted optional part, distinct by JSON text",
             assumptions: &["names of the two members of a bitsequence object and null-vs-omitted for a skipped parameter type are not asserted (the statement is silent)"],
-            subs: crate::p_reg::c08_subs,
+            subs: || {
+                let mut v = crate::p_reg::c08_subs();
+                v.extend(crate::fuzz_entry::fuzz_subs("C08"));
+                v
+            },
             extra: None,
         },
         PropDef {
